@@ -56,7 +56,10 @@ def gen_case(seed):
     inproc = evo in ("edited-global", "removed") and not cache and rng.random() < 0.75
     return {"seed": seed, "kind": "evolution", "cluster": cluster, "module": mod, "cache": cache, "evolution": evo, "inproc": inproc,
             "caller_version": rng.choice(["p1", "1:2", "a#b", "7"]), "callee_explicit": rng.random() < 0.4, "callee_ver_base": rng.choice(["c", "c", "1::", "a:b#", "x.link"]),
-            "other_cluster": "oc" + gen_ident(rng), "nested": rng.random() < 0.4}
+            "other_cluster": "oc" + gen_ident(rng), "nested": rng.random() < 0.4,
+            # the callee is not called by name but handed over as an argument to a third (pinned) memento function: the
+            # stored metadata then holds a function reference as an argument VALUE
+            "fn_arg": rng.random() < 0.3}
 
 
 def cases(tier, seed):
@@ -113,9 +116,14 @@ def evo_program(c, edition):
         lines += [deco(cl, "n1"), "def mid(x):", "    __vtrace__(\"mid\", x)",
                   "    return [\"mid\", %s(x)]" % callee_name if ev != "removed" else "    return [\"mid\", x]", ""]
     target = "mid" if c["nested"] else callee_name
+    fn_arg = c.get("fn_arg") and not c["nested"]
+    if fn_arg:
+        lines += [deco(cl, "a1"), "def apply(x, g):", "    __vtrace__(\"apply\", x)", "    return [\"apply\", g(x)]", ""]
     lines += [deco(cl, c["caller_version"]), "def caller(x):", "    __vtrace__(\"caller\", x)"]
     if ev == "removed" and not c["nested"]:
         lines.append("    return [\"caller\", x]")
+    elif fn_arg and ev != "made-plain":
+        lines.append("    return [\"caller\", apply(x, %s)]" % target)
     else:
         lines.append("    return [\"caller\", %s(x)]" % target)
     return "\n".join(lines) + "\n"
